@@ -139,8 +139,12 @@ fn join_check2<const SET: bool, const NL: usize, const NR: usize, const OC: usiz
     }
     let _ = steps;
     step!(); step!(); step!(); step!(); step!(); step!(); step!(); step!(); step!(); step!();
+    // polls needed <= inputs (NL + NR script entries) + outputs (NL * NR) + 1
     if NL > 2 {
-        step!(); step!(); step!(); step!(); step!(); step!(); step!();
+        step!(); step!();
+    }
+    if NL > 2 && NR > 2 {
+        step!(); step!(); step!(); step!(); step!();
     }
     // (`SymmetricHashJoin` does not claim `FusedPull`: it is not polled again after its end)
     assert!(ended, "C13 join did not end although both inputs ended");
